@@ -242,7 +242,9 @@ def gen_cases(rng, tier):
 
 # ---------------------------------------------------------------- implementation
 def run_impl_cases(cases, tag):
-    nw = min(cm.NCPU, max(1, len(cases) // 8))
+    # the whole quick tier costs ~5 s of CPU in one process; every extra worker pays ~10 s of imports and one machine-wide
+    # slot, so only a few workers
+    nw = max(1, min(4, len(cases) // 60))
     chunks = [cases[i::nw] for i in range(nw)]
     res = cm.run_impl_parallel(PID, "c17", [dict(cases=c, coverage=True) for c in chunks], timeout=900, tag=tag)
     out = [None] * len(cases)
@@ -530,7 +532,7 @@ def run(tier, seed, replay=None):
     validated = 0
     try:
         outs = cm.coq_eval_lines(PID, HEADER_MODEL, m_exprs + [f"run_ico {o}%nat" for o in ico_orders if o in ico_need],
-                                 tag="model", per_file=max(8, len(m_exprs) // 16 + 1))
+                                 tag="model", per_file=max(8, len(m_exprs) // 6 + 1))
         for i, o in zip(m_idx, outs[:len(m_idx)]):
             d = compare_model(cases[i], results[i], parse_coq_value(o))
             if d:
@@ -558,7 +560,7 @@ def run(tier, seed, replay=None):
     lap("coq_model")
     helpers_validated = 0
     try:
-        outs = cm.coq_eval_lines(PID, HEADER_MODEL, h_exprs, tag="helpers", per_file=max(1, len(h_exprs) // 16 + 1))
+        outs = cm.coq_eval_lines(PID, HEADER_MODEL, h_exprs, tag="helpers", per_file=max(1, len(h_exprs) // 6 + 1))
         for (i, k), o in zip(h_idx, outs):
             if k is None:
                 d = compare_helpers(cases[i], results[i], parse_coq_value(o))
@@ -583,7 +585,7 @@ def run(tier, seed, replay=None):
     lap("coq_helpers")
     cert_true = 0
     try:
-        outs = cm.coq_eval_lines(PID, HEADER_CERT, c_exprs, tag="cert", per_file=max(1, len(c_exprs) // 16 + 1))
+        outs = cm.coq_eval_lines(PID, HEADER_CERT, c_exprs, tag="cert", per_file=max(1, len(c_exprs) // 6 + 1))
         for i, o in zip(c_idx, outs):
             ok = o.strip() == "true"
             cert_true += ok
